@@ -468,8 +468,8 @@ var Engine = &core.Engine{
 	ID:    "C10",
 	Level: "exploration",
 	Rule: "per case one model type built with reflect.StructOf (key int64 / uint / string / composite (int64,string); 3..7 fields of 20 Go kinds incl. pointers and sql.Null*, custom column names, one random permission tag each out of <-:create, <-:update, <-:false, <-, ->, ->;<-:create, ->;<-:update, ->:false;<-:create, ->:false;<-, ->:false, -, -:migration, -:all; about 3 data fields in 10 also carry a default value in either tag order - default:(SQL expression) or default:null, which only the database evaluates (schema.FieldsWithDefaultDBValue), or a literal default:N / default:text gorm writes itself for a zero value - with the same DEFAULT in the table's DDL; 0..3 tracked time fields: UpdatedAt/CreatedAt by name, autoUpdateTime (time, seconds, milli, nano), autoCreateTime) over a table created with raw SQL holding 3..6 rows of unique sentinels; 12 writes per case, each on a re-seeded table: " +
-		"Create(struct | slice | []*T | map | []map), CreateInBatches, upsert (DoUpdates AssignmentColumns / Assignments, UpdateAll, DoNothing; conflicting and new keys mixed), Save (existing key, new key, zero key, slice, under a Where), Updates(struct by value/pointer, value = model), Updates(map), Update, UpdateColumn, UpdateColumns(struct | map) x Select/Omit (none, names, '*', '*'+Omit, names+Omit, Omit('*'); field-name and column spelling; string and []string form) x values zero / non-zero / pointer-to-zero / nil / gorm.Expr x targets Model(key), Where (8 forms, 1..2), Model(key)+Where, Model(slice of keys)[+Where], missing key, value = model [+Where]; creates whose records carry integer keys while the key column is omitted / left unselected (1 in 5: the database must assign the key); one operation in three runs its chain calls (Model, Where, Select, Omit, Clauses) in a random order; a column an INSERT may not write must hold the column's DDL default (else NULL); " +
-		"distinct = (finisher, target form, Select/Omit mode and spelling, permission tags denied, value forms, which check classes occurred, key kind, kinds of default whose given value had to be kept out of an INSERT, key carried but omitted, chain calls reordered); non-trivial = at least one cell had to be written or refreshed, or a given value had to be kept out by a permission tag / Select / Omit",
+		"Create(struct | slice | []*T | map | []map), CreateInBatches, upsert (DoUpdates AssignmentColumns / Assignments, UpdateAll, DoNothing; conflicting and new keys mixed), Save (existing key, new key, zero key, slice, under a Where), Updates(struct by value/pointer, value = model), Updates(map), Update, UpdateColumn, UpdateColumns(struct | map) x Select/Omit (none, names, '*', '*'+Omit, names+Omit, Omit('*'); each name spelled as field name, column name or - 1 column spelling in 6 - column name qualified with the written table 'tbl.col'; the list of names handed over as Select(a, b, c), Select([]string{..}), Select(a, []string{..}), Select([]string{..}, c), Select([]string{a}, []string{..}), Omit(a, b, c) or - 2 in 5 lists of two or more names - ONE comma-joined string Omit(\"a,b\" | \"a, b\" | \"a , b\") with every mix of spellings at every position) x values zero / non-zero / pointer-to-zero / nil / gorm.Expr x targets Model(key), Where (8 forms, 1..2), Model(key)+Where, Model(slice of keys)[+Where], missing key, value = model [+Where]; creates whose records carry integer keys while the key column is omitted / left unselected (1 in 5: the database must assign the key); one operation in three runs its chain calls (Model, Where, Select, Omit, Clauses) in a random order; a column an INSERT may not write must hold the column's DDL default (else NULL); " +
+		"distinct = (finisher, target form, Select/Omit mode and spelling, permission tags denied, value forms, which check classes occurred, key kind, kinds of default whose given value had to be kept out of an INSERT, key carried but omitted, chain calls reordered, call form of the Select list and of the Omit list incl. the separator of a comma-joined one); non-trivial = at least one cell had to be written or refreshed, or a given value had to be kept out by a permission tag / Select / Omit",
 	Assumptions: []string{
 		"the table is created with raw SQL (the migrator is not under test) and every chain starts with db.Table(name) (reflect.StructOf types have no name); ignored fields (`-`, `-:all`) get a ghost column so that a write to them is visible",
 		"`->:false` without a `<-` tag: the statement does not fix its write permission, the column is not checked in addressed rows (rows outside the target are)",
@@ -488,6 +488,7 @@ var Engine = &core.Engine{
 		"the key column is omitted / left unselected on creates only for single integer keys (the database can assign one); string and composite keys are always written",
 		"the chain calls commute: Table() always comes first, the finisher last, map conditions use column names (no model is needed to resolve them)",
 		"one violation per distinct class of disagreement of an operation (so a known finding does not hide another class in the same operation); the known-finding signature upsert-doupdates-ignores-update-permission is only given to existing (conflicting) rows",
+		"name lists: Omit's documented one-string form is a comma-separated list (separators: a comma with optional blanks around it; other separators gorm happens to split on are not generated); a comma-joined string given to Select is NOT generated (on write paths gorm takes it as one unknown name: not fixed by the statement); Select and Omit are each called at most once per chain (a second call replaces the first list: not fixed by the statement); the table-qualified spelling is only used with the column name and the statement's own table (db.Table(name)), never with a field name, another table, quotes or 'tbl.*'",
 		"the value of Updates(struct) has the model's own type (different-schema values are not generated); Model(slice) only with non-zero keys",
 	},
 	Cases: func(tier string) int {
